@@ -95,6 +95,12 @@ def random_track(rng, values, nbars=None, one_key_meter=True, instrument=None, m
         r = rng.random()
         rp = 1.0 if r < 0.08 else (rest_p if r < 0.9 else 0.7)       # whole-bar rests, rest-heavy bars
         bars.append(random_bar(rng, key, meter, values, rest_p=rp, **kw))
+    if len(bars) >= 2 and rng.random() < 0.2:
+        # one bar object is placed in the track a second time (a repeated phrase)
+        i = rng.randrange(len(bars))
+        twin = dict(bars[i])
+        twin["reuse_of"] = i
+        bars.insert(rng.randint(i + 1, len(bars)), twin)
     if instrument == "random":
         r = rng.random()
         if r < 0.45:
@@ -158,8 +164,13 @@ def build_track(tspec):
             ins = Instrument()
     t = Track(ins)
     t.name = tspec["name"]
+    built = []
     for b in tspec["bars"]:
-        t.add_bar(build_bar(b))
+        if b.get("reuse_of") is not None and b["reuse_of"] < len(built):
+            built.append(built[b["reuse_of"]])        # the very same Bar object placed again
+        else:
+            built.append(build_bar(b))
+        t.add_bar(built[-1])
     return t
 
 
